@@ -170,7 +170,7 @@ pub fn library_view(bytes: &[u8], numbers: Vec<u32>) -> Value {
         let doc = reader.into_document();
         let mut pages = Vec::new();
         let n = doc.page_count().unwrap_or(0);
-        for i in 0..n.min(64) {
+        for i in 0..n.min(400) {
             match doc.get_page(i) {
                 Ok(pg) => {
                     let streams = doc.get_page_content_streams(&pg);
